@@ -753,10 +753,12 @@ theorem toolLoop_succ (cfg : ToolCfg) (adv : ToolAdv σ ρ κ θ) (fuel k : Nat)
     ((k : Int) < cfg.maxIter ∧ ∃ s' out res lg evs,
         toolLoop cfg adv (fuel + 1) k cur s = ⟨s', some res, lg, .tools cur out :: evs⟩ ∧
         (∀ e ∈ evs, e.isExec = true) ∧ lg.length ≤ 1 ∧
-        (lg ≠ [] → ∃ resp, out = .ok (resp, []) ∧ res = .ok resp ∧ lg = [⟨none, resp⟩]) ∧
-        (∀ resp, res = .ok resp → ∃ calls, out = .ok (resp, calls) ∧ evs = [] ∧ (calls = [] ∨ cfg.autoExec = false))) ∨
+        (lg ≠ [] → ∃ resp calls, out = .ok (resp, calls) ∧ adv.truthy resp calls = false ∧ res = .ok resp ∧
+          lg = [⟨none, resp⟩]) ∧
+        (∀ resp, res = .ok resp → ∃ calls, out = .ok (resp, calls) ∧ evs = [] ∧
+          (adv.truthy resp calls = false ∨ cfg.autoExec = false))) ∨
     ((k : Int) < cfg.maxIter ∧ cfg.autoExec = true ∧ ∃ s' resp calls results evs,
-        calls ≠ [] ∧ results.length = calls.length ∧ (∀ e ∈ evs, e.isExec = true) ∧ evs.length = calls.length ∧
+        adv.truthy resp calls = true ∧ results.length = calls.length ∧ (∀ e ∈ evs, e.isExec = true) ∧ evs.length = calls.length ∧
         toolLoop cfg adv (fuel + 1) k cur s =
           ⟨(toolLoop cfg adv fuel (k + 1) (some results) s').st, (toolLoop cfg adv fuel (k + 1) (some results) s').res,
            (toolLoop cfg adv fuel (k + 1) (some results) s').logged,
@@ -771,10 +773,9 @@ theorem toolLoop_succ (cfg : ToolCfg) (adv : ToolAdv σ ρ κ θ) (fuel k : Nat)
     · rename_i s1 resp calls _
       split at hr
       · rename_i he
-        have he' : calls = [] := by simpa using he
-        subst he'
-        refine Or.inl ⟨hg, _, _, _, _, _, hr.symm, (by simp), (by simp), (fun _ => ⟨resp, rfl, rfl, rfl⟩), ?_⟩
-        intro r h; cases h; exact ⟨[], rfl, rfl, Or.inl rfl⟩
+        have he' : adv.truthy resp calls = false := by simpa using he
+        refine Or.inl ⟨hg, _, _, _, _, _, hr.symm, (by simp), (by simp), (fun _ => ⟨resp, calls, rfl, he', rfl, rfl⟩), ?_⟩
+        intro r h; cases h; exact ⟨calls, rfl, rfl, Or.inl he'⟩
       · rename_i he
         split at hr
         · rename_i ha
@@ -957,7 +958,7 @@ theorem toolLoop_thr (cfg : ToolCfg) (adv : ToolAdv σ ρ κ θ) :
 
 /-- A provider that asks for tools on every round, with tools and completion that never raise. -/
 structure Insatiable (adv : ToolAdv σ ρ κ θ) : Prop where
-  tools : ∀ s p, ∃ s' resp calls, adv.completeTools s p = (s', .ok (resp, calls)) ∧ calls ≠ []
+  tools : ∀ s p, ∃ s' resp calls, adv.completeTools s p = (s', .ok (resp, calls)) ∧ adv.truthy resp calls = true
   exec : ∀ s c, ∃ s' r, adv.exec s c = (s', .ok r)
   complete : ∀ s p, ∃ s' r, adv.complete s p = (s', .ok r)
 
@@ -996,9 +997,8 @@ theorem toolLoop_insatiable (cfg : ToolCfg) (adv : ToolAdv σ ρ κ θ) (hins : 
       obtain ⟨s1, resp, calls, hct, hne⟩ := hins.tools s cur
       rw [hct] at hL
       simp only at hL
-      have hne' : calls.isEmpty = false := by cases calls <;> simp_all
-      rw [hne', hauto] at hL
-      simp only [Bool.false_eq_true, if_false, Bool.not_true] at hL
+      rw [hne, hauto] at hL
+      simp only [Bool.not_true, Bool.false_eq_true, if_false] at hL
       have hx : ∀ (cs : List κ) (s : σ), ∃ s2 rs evs, execAll adv cs s = (s2, .ok rs, evs) := by
         intro cs
         induction cs with
@@ -1027,7 +1027,7 @@ theorem toolLoop_insatiable (cfg : ToolCfg) (adv : ToolAdv σ ρ κ θ) (hins : 
         rw [hc1] at hout
         simp only [TEv.tools.injEq, Out.ok.injEq, Prod.mk.injEq] at hout
         rcases hc3 with hc3 | hc3
-        · rw [hc3] at hout; exact hne hout.2.2
+        · rw [← hout.2.1, ← hout.2.2, hne] at hc3; cases hc3
         · rw [hauto] at hc3; cases hc3
     · rw [h]
       obtain ⟨i1, i2, r, i3⟩ := ih (k + 1) (some results) s' (by omega)
